@@ -318,7 +318,7 @@ def _e1(ctx, R):
                 R.bad(rid, "%s|%s" % (k, art), CL if "listener" in art or "all" in art or art == "stub" else GC,
                       "wiring of event kind %s, artefact %s: %s" % (k, art, p))
     R.count("wiring cells (E1/E4)", cells)
-    R.floor("wiring cells (E1/E4)", 27 * 9)
+    R.floor("wiring cells (E1/E4)", 27 * 9, strict=True)
     # init registers
     init = cl.methods.get("__init__")
     if init is None or "self.register_all_listeners" not in [norm(c.func) for c in walk_local(init.node) if isinstance(c, ast.Call)]:
